@@ -61,7 +61,7 @@ class G:
         if kind is None:
             kind = r.choice("pppprrl" + ("cc" if topo == "NNC" else ""))
         if kind in "pc":
-            d = r.choice([1, 1, 1, 2, 3])
+            d = r.choice(getattr(self, "divs", [1, 1, 1, 2, 3]))
             v = [self.coef() for _ in range(n)]
         else:
             d = 1
@@ -83,14 +83,46 @@ class G:
         return self.r.choice([1, 1, 1, 2, 3, -1, -2])
 
     # ---- objects ----
+    def special(self, oid, n, topo):
+        """receivers in the states the operators branch on: empty but not yet detected (several ways), marked empty,
+        universe, a single point (non-unit divisor), with a line, lower-dimensional"""
+        r = self.r
+        k = r.choice(["undetected_empty", "undetected_empty", "marked_empty", "universe", "point", "line", "lowdim", "undetected_empty_gens_then_con"])
+        if n == 0 and k in ("point", "line", "lowdim"): k = "universe"
+        if k == "undetected_empty":
+            if n == 0: return "new %d %s 0 cons 2 >= 1 >= -1" % (oid, topo)
+            v = self.vec(n, nz=True); b = r.randint(-2, 2)
+            strictness = ">" if (topo == "NNC" and r.random() < 0.5) else ">="
+            gap = 0 if strictness == ">" else -1
+            cs = ["%s %d %s" % (strictness, b, " ".join(map(str, v))), ">= %d %s" % (-b + gap, " ".join(str(-x) for x in v))]
+            cs += [self.con(n, topo) for _ in range(r.randint(0, 2))]
+            return "new %d %s %d cons %d %s" % (oid, topo, n, len(cs), " ".join(cs))
+        if k == "marked_empty": return "new %d %s %d empty" % (oid, topo, n)
+        if k == "universe": return "new %d %s %d universe" % (oid, topo, n)
+        if k == "point": return "new %d %s %d gens 1 p %d %s" % (oid, topo, n, r.choice([1, 2, 3]), " ".join(str(r.randint(-3, 3)) for _ in range(n)))
+        if k == "line":
+            return "new %d %s %d gens 3 p 1 %s l 1 %s %s" % (oid, topo, n, " ".join(str(r.randint(-2, 2)) for _ in range(n)),
+                                                            " ".join(map(str, self.vec(n, nz=True))), self.gen(n, topo, "r"))
+        if k == "lowdim":
+            return "new %d %s %d cons 2 = %d %s %s" % (oid, topo, n, r.randint(-2, 2), " ".join(map(str, self.vec(n, nz=True))), self.con(n, topo))
+        # generators up to date, then (in the history) a constraint will empty it: start from a point
+        return "new %d %s %d gens 1 p 1 %s" % (oid, topo, n, " ".join(str(r.randint(-1, 1)) for _ in range(n)))
+
     def new(self, oid, dims, topos, pool_ok=True):
         r = self.r
         topo = r.choice(["C", "C", "NNC"])
         n = r.randint(0, self.maxdim) if r.random() < 0.9 else 0
+        if getattr(self, "special_rate", 0) and r.random() < self.special_rate:
+            if dims and r.random() < 0.7:
+                n = r.choice(list(dims.values()))
+            dims[oid] = n; topos[oid] = topo
+            return self.special(oid, n, topo)
         # reuse a dimension already present, so that binary operations have partners
         if dims and r.random() < 0.7:
             n = r.choice(list(dims.values()))
         how = r.random()
+        if getattr(self, "divs", None) and n > 0 and r.random() < 0.7:
+            how = 0.7   # build from generators (points with non-unit divisors)
         if how < 0.08: s = "new %d %s %d universe" % (oid, topo, n)
         elif how < 0.14: s = "new %d %s %d empty" % (oid, topo, n)
         elif how < 0.60: s = "new %d %s %d cons %s" % (oid, topo, n, self.cons(n, topo))
@@ -113,7 +145,7 @@ class G:
                  "intersection_assign", "poly_hull_assign", "topological_closure_assign",
                  "add_space_dimensions_and_embed", "add_space_dimensions_and_project", "poly_difference_assign", "time_elapse_assign",
                  "add_recycled_constraints", "simplify_using_context_assign", "poly_hull_assign_if_exact",
-                 "refine_with_congruence", "add_congruence", "refine_with_congruences"]
+                 "refine_with_congruence", "add_congruence", "refine_with_congruences", "positive_time_elapse_assign"]
         if n > 0:
             cands += ["affine_image", "affine_image", "affine_preimage", "generalized_affine_image", "generalized_affine_preimage",
                       "bounded_affine_image", "bounded_affine_preimage", "unconstrain", "unconstrain_set",
@@ -132,7 +164,7 @@ class G:
         if op == "add_generators":
             return "%s %s" % (p, self.gens(n, topo, 1, 3))
         if op in ("intersection_assign", "poly_hull_assign", "poly_difference_assign", "time_elapse_assign",
-                  "simplify_using_context_assign", "poly_hull_assign_if_exact"):
+                  "simplify_using_context_assign", "poly_hull_assign_if_exact", "positive_time_elapse_assign"):
             return "%s %d" % (p, r.choice(same))
         if op in ("refine_with_congruence", "add_congruence"):
             m = r.choice([0, 0, 1, 2, 3]) if op == "refine_with_congruence" else 0
@@ -168,7 +200,7 @@ class G:
             vs = sorted(r.sample(range(n), r.randint(1, n))); dims[x] = n - len(vs)
             return "%s %d %s" % (p, len(vs), " ".join(map(str, vs)))
         if op == "remove_higher_space_dimensions":
-            k = r.randint(0, n); dims[x] = k
+            k = 0 if r.random() < 0.3 else r.randint(0, n); dims[x] = k
             return "%s %d" % (p, k)
         if op == "map_space_dimensions":
             keep = [i for i in range(n) if r.random() < 0.75]
@@ -228,8 +260,11 @@ class G:
         lines.append("end")
         return lines
 
-def make_cases(seed, count, maxdim=3, nobj=3, steps=7, ops=None, pq=0.3, pobs=0.2, start=0):
+def make_cases(seed, count, maxdim=3, nobj=3, steps=7, ops=None, pq=0.3, pobs=0.2, start=0, special=0.0, divbias=False):
     g = G(seed, maxdim)
+    g.special_rate = special
+    if divbias:
+        g.divs = [2, 3, 5, 7, 1]
     out = []
     for i in range(count):
         out += g.history("%d" % (start + i), nobj, steps, ops, pq, pobs)
